@@ -3,6 +3,8 @@ package netprops
 import (
 	"encoding/json"
 	"fmt"
+	"github.com/ansible/receptor/pkg/types"
+	"os"
 	"regexp"
 	"strings"
 
@@ -31,8 +33,9 @@ type FWPacket struct {
 }
 
 type C12Pure struct {
-	Rules   []FWRule   `json:"rules"`
-	Packets []FWPacket `json:"packets"`
+	ViaConfig bool       `json:"via_config,omitempty"` // additionally hand the rule list to types.NodeCfg.Init
+	Rules     []FWRule   `json:"rules"`
+	Packets   []FWPacket `json:"packets"`
 }
 
 func (r FWRule) data() netceptor.FirewallRuleData {
@@ -222,6 +225,22 @@ func execC12Pure(b []byte) vx.Verdict {
 	funcs, err := netceptor.ParseFirewallRules(data)
 	labels := []string{}
 	nontrivial := false
+	if s.ViaConfig && len(data) > 0 {
+		// the configuration entry point itself (what a daemon does with the firewallrules of its node section)
+		dir, derr := os.MkdirTemp("", "c12cfg")
+		if derr == nil {
+			ierr := types.NodeCfg{ID: "cfgnode", DataDir: dir, FirewallRules: data}.Init()
+			if netceptor.MainInstance != nil {
+				netceptor.MainInstance.Shutdown()
+			}
+			_ = os.RemoveAll(dir)
+			labels = append(labels, "via-node-config")
+			if ref.invalid && ierr == nil {
+				return vx.Violation("bad-rules-refused", "C12/config-accepted-invalid:"+classifyWhy(ref.why),
+					"rule set must be refused at configuration time (%s) but NodeCfg.Init returned no error: the node would start with other rules than configured", ref.why)
+			}
+		}
+	}
 	if ref.invalid {
 		labels = append(labels, "invalid-ruleset")
 		if err == nil {
